@@ -16,13 +16,32 @@ BATCH = 150
 EXT = {"python": "py", "javascript": "js", "java": "java", "c": "c", "php": "php", "go": "go"}
 
 
+CLASS_OPS = ("class_decl", "interface_decl", "record_decl", "enum_decl", "struct_decl")
+
+
+def member_rows(vm, crow, acc=None):
+    """declaration rows that make up a (local) class declaration: direct children of its member blocks, recursively for
+    nested classes, never the statements inside member method bodies"""
+    acc = set() if acc is None else acc
+    for k, v in crow.items():
+        if isinstance(v, int) and v in vm.blocks and k in ("methods", "fields", "nested", "static_init", "init", "body"):
+            for r in vm.blocks[v]:
+                acc.add(r["stmt_id"])
+                if r.get("operation") in CLASS_OPS:
+                    member_rows(vm, r, acc)
+    return acc
+
+
 def own_statements(vm, mrow):
     own = set()
 
     def scan(stmts):
         for s in stmts:
             own.add(s["stmt_id"])
-            if s.get("operation") in ("method_decl", "class_decl", "interface_decl", "record_decl", "enum_decl", "struct_decl"):
+            if s.get("operation") in CLASS_OPS:
+                own.update(member_rows(vm, s))      # a local class declaration may be modelled as a chain of member declarations
+                continue
+            if s.get("operation") == "method_decl":
                 continue
             for k, v in s.items():
                 if isinstance(v, int) and v in vm.blocks and (k.endswith("body") or k in ("parameters", "init", "static_init")):
@@ -31,6 +50,22 @@ def own_statements(vm, mrow):
         scan(vm.block(mrow.get("parameters")))
     scan(vm.block(mrow.get("body")))
     return own
+
+
+def via_members(vm, edges, a, b):
+    """is b reachable from the class declaration a through member-declaration nodes only?"""
+    members = member_rows(vm, vm.by_id[a])
+    seen, work = set(), [a]
+    while work:
+        n = work.pop()
+        for x, y in edges:
+            if x == n:
+                if y == b:
+                    return True
+                if y in members and y not in seen:
+                    seen.add(y)
+                    work.append(y)
+    return False
 
 
 def enumerate_paths(vm, name, nargs, maxbits, maxpaths):
@@ -75,6 +110,10 @@ def run_batch(batch):
     lang = batch["lang"]
     from lian.basics.basic_analysis import P1BasicSemanticAnalysis
     fname = "m." + EXT[lang]
+    if batch.get("max_rows"):
+        # half of the batches run with a small bundle row limit, so the CFG store rolls over as it does on big projects
+        from lian.config import config
+        config.MAX_ROWS = batch["max_rows"]
     r = runner.run_lian({fname: batch["source"]}, lang, "lang", extra_args=["--nomock"])
     if r.status != "ok":
         return {"fatal": f"lang phase {r.status}: {r.exc} {(r.traceback or '')[-300:]}"}
@@ -132,16 +171,18 @@ def run_batch(batch):
                 continue
             covered.update(seq)
             ops = lambda sid: vm.by_id.get(sid, {}).get("operation", "?")
-            if indeg.get(seq[0], 0) and ops(seq[0]) != "parameter_decl":
-                # a method whose first statement is a loop header legitimately has back edges into it
-                if not any(ops(a) != "?" and a in covered for a, b in edges if b == seq[0]):
-                    probs.append(("entry-has-predecessor", f"first executed statement {seq[0]} ({ops(seq[0])}) has a predecessor", prefix, None))
+            fwd = sorted(a for a, b in edges if b == seq[0] and a < seq[0] and ops(a) != "dowhile_stmt")
+            if fwd:
+                # (edges from later statements are loop back edges; foreign predecessors are caught by the node check)
+                probs.append(("entry-has-predecessor", f"first executed statement {seq[0]} ({ops(seq[0])}) has predecessors {fwd}", prefix, None))
             bad = None
             for a, b in zip(seq, seq[1:]):
                 if a not in nodes or b not in nodes:
                     m = a if a not in nodes else b
                     bad = ("missing-node:" + ops(m), f"executed statement {m} ({ops(m)}) is not a CFG node; path {seq}", prefix, None)
                     break
+                if (a, b) not in edges and ops(a) in CLASS_OPS and via_members(vm, edges, a, b):
+                    continue
                 if (a, b) not in edges:
                     bad = (f"missing-edge:{ops(a)}->{ops(b)}", f"{a} ({ops(a)}) is followed by {b} ({ops(b)}) but the CFG has no such edge; "
                            f"successors of {a}: {sorted(y for x, y in edges if x == a)}; path {seq}", prefix, None)
@@ -150,7 +191,7 @@ def run_batch(batch):
                 last = seq[-1]
                 if last not in nodes:
                     bad = ("missing-node:" + ops(last), f"executed statement {last} is not a CFG node", prefix, None)
-                elif (last, -1) not in edges and not uncaught:
+                elif (last, -1) not in edges and not uncaught and not (ops(last) in CLASS_OPS and via_members(vm, edges, last, -1)):
                     bad = (f"no-exit-edge:{ops(last)}", f"the activation ends after {last} ({ops(last)}) but the CFG has no edge to the exit node; "
                            f"successors: {sorted(y for x, y in edges if x == last)}; path {seq}", prefix, None)
             if bad and midraise:
@@ -177,6 +218,7 @@ def make_batches(quick):
         maxc = 2
         cur_src, cur_methods, cur_meta = [], [], []
         i = 0
+        nbatch = 0
         for body, feats, nc in skel.skeletons(maxc, fam):
             if has_jump_in_finally_try(body):
                 continue
@@ -187,19 +229,22 @@ def make_batches(quick):
                     and feats <= skel.C_ONLY | {"break", "continue", "return", "if", "while"}
                     and ("switch" not in feats or "continue" in feats)):
                 continue        # quick: C-family languages get all 1-compound skeletons and the loop/switch x jump pairs
-            name = f"entry_{i}"
-            i += 1
-            src = skel.render_python(name, body) if lang == "python" else skel.render_c_family(name, body, lang)
-            cur_src.append(src)
-            cur_methods.append((name, 2))
-            cur_meta.append((feats, nc, src))
-            if len(cur_src) == BATCH:
+            variants = [True] if nc > 1 else [True, False]       # 0/1-compound skeletons also as parameterless methods
+            for params in variants:
+                name = f"entry_{i}"
+                i += 1
+                src = skel.render_python(name, body, params) if lang == "python" else skel.render_c_family(name, body, lang, params)
+                cur_src.append(src)
+                cur_methods.append((name, 2 if params else 0))
+                cur_meta.append((feats | (set() if params else {"noparams"}), nc, src))
+            if len(cur_src) >= BATCH:
+                nbatch += 1
                 yield {"lang": lang, "source": skel.wrap_file(lang, cur_src), "methods": cur_methods, "meta": cur_meta,
-                       "maxbits": 6 if quick else 8, "maxpaths": 64 if quick else 256}
+                       "maxbits": 6 if quick else 8, "maxpaths": 64 if quick else 256, "max_rows": 0 if nbatch % 2 else 300}
                 cur_src, cur_methods, cur_meta = [], [], []
         if cur_src:
             yield {"lang": lang, "source": skel.wrap_file(lang, cur_src), "methods": cur_methods, "meta": cur_meta,
-                   "maxbits": 6 if quick else 8, "maxpaths": 64 if quick else 256}
+                   "maxbits": 6 if quick else 8, "maxpaths": 64 if quick else 256, "max_rows": 300}
 
 
 def quick_filter_c(lang, feats):
